@@ -106,6 +106,25 @@ def classify(gi, m, prev, obs, exc):
         target = L.controlled(base.conj().T, k) if k > 0 else base.conj().T
         if abs(q * inner.exponent - 1) < 1e-9 and np.allclose(np.linalg.matrix_power(obs, q), target, atol=1e-7):
             return "D15:dagger-of-fractional-power-is-power-of-dagger"
+    if m[0] == "dagger":
+        # the same root cause further up a chain: integer powers / controls sitting between the dagger and a fractional Power (X.power(1/2).power(3).dagger).
+        # D15 iff the observed matrix is exactly the same wrappers applied to "the power of the dagger" (what Power.dagger hands back) and that is not the adjoint
+        def over_power_of_dagger(g):
+            if isinstance(g, _gates.Power):
+                if abs(g.exponent - round(g.exponent)) > 1e-12:
+                    return g.wrapped_gate.dagger.power(g.exponent)
+                w = over_power_of_dagger(g.wrapped_gate)
+                return None if w is None else w.power(g.exponent)
+            if isinstance(g, _gates.ControlledGate):
+                w = over_power_of_dagger(g.wrapped_gate)
+                return None if w is None else w.controlled(g.num_control_qubits)
+            return None
+        try:
+            alt = over_power_of_dagger(gi)
+            if alt is not None and alt.num_qubits == gi.num_qubits and np.allclose(num(alt.matrix), obs, atol=1e-7):
+                return "D15:dagger-of-fractional-power-is-power-of-dagger"
+        except Exception:  # noqa: BLE001
+            pass
     if trans(m) and isinstance(inner, _gates.Power) and abs(inner.exponent - round(inner.exponent)) > 1e-12 and gi is inner:
         # D18: sympy moves a nested fractional power across the branch cut: the result is the function of the complex CONJUGATE of the wrapped matrix
         okc, _ = expected_ok(prev.conj(), m, obs)
